@@ -729,6 +729,12 @@ protected:
      */
     KeyDeclarationVectorType            m_keyDeclarations;
 
+    /**
+     * The namespace declarations in scope for each xsl:key element
+     * of this stylesheet.  The KeyDeclaration objects point into it.
+     */
+    NamespacesStackType                 m_keyNamespaces;
+
     WhitespaceElementsVectorType        m_whitespaceElements;
 
     static const XalanQNameByReference  s_emptyQName;
